@@ -281,6 +281,13 @@ func runCheck(root, prop, tier string, makeBaseline, verbose, keep bool, onlyFn 
 	if makeBaseline {
 		nb := Baseline{Property: prop, MinObls: nReal}
 		for _, o := range failed {
+			switch o.Kind {
+			case "post", "inv-entry", "inv-step", "assert", "pre", "frameobj":
+				// a clause somebody wrote (or the object-level frame) is never
+				// baselined away: it has to be proved or the contract corrected
+				fmt.Printf("baseline: NOT LISTED (explicit clause fails) %s (%s) [%s] %s\n", o.Key, o.Result.Status, o.Pos, o.Clause)
+				continue
+			}
 			nb.Undecided = append(nb.Undecided, o.Key)
 			fmt.Printf("baseline: undecided %s (%s) [%s] %s %s\n", o.Key, o.Result.Status, o.Pos, o.Desc, o.Clause)
 		}
